@@ -12,6 +12,7 @@ fn factory(model: &str) -> Option<Factory> {
         "kb" => Box::new(|c: &Value| Box::new(models::kb::KB::new(c)) as Box<dyn Model>),
         "watermark" => Box::new(|c: &Value| Box::new(models::watermark::WM::new(c)) as Box<dyn Model>),
         "undo" => Box::new(|c: &Value| Box::new(models::undo::UF::new(c)) as Box<dyn Model>),
+        "indexes" => Box::new(|c: &Value| Box::new(models::indexes::IXWrap::new(c)) as Box<dyn Model>),
         _ => return None,
     })
 }
